@@ -9,6 +9,7 @@ import (
 	"net"
 	"strings"
 	"sync"
+	"time"
 
 	"gitlab.com/aquachain/aquachain/rlp"
 )
@@ -118,6 +119,15 @@ func VerifRecoverNodeID(hash, sig []byte) (NodeID, error) { return recoverNodeID
 
 // VerifExpired is expired(ts) != nil.
 func VerifExpired(ts uint64) bool { return expired(ts) != nil }
+
+// timing constants (GenParamsNet.v)
+const (
+	VerifSendTimeout = sendTimeout // packet expiration horizon
+	VerifRespTimeout = respTimeout
+)
+
+// VerifNodeDBNodeExpiration is nodeDBNodeExpiration (bond expiration; a package variable).
+func VerifNodeDBNodeExpiration() time.Duration { return nodeDBNodeExpiration }
 
 // VerifMaxNeighbors is the computed maxNeighbors.
 func VerifMaxNeighbors() int { return maxNeighbors }
